@@ -118,7 +118,7 @@ func changeLeaf(t *rapid.T, v *m.Val, path string, cur string) *m.Val {
 
 func genPairCase(t *rapid.T) *PairCase {
 	zones := rapid.IntRange(0, 3).Draw(t, "zones") == 0
-	ty := gen.Type(t, gen.TypeOpt{Depth: rapid.IntRange(1, 4).Draw(t, "depth"), Maybe: true, MaxFields: 3, MaybeInFields: true}).FixKeys()
+	ty := gen.Type(t, gen.TypeOpt{Depth: rapid.IntRange(1, 4).Draw(t, "depth"), Maybe: true, MaxFields: 5, MaybeInFields: true}).FixKeys()
 	o := gen.ValOpt{MaxLen: 3, Clear: true, Zones: zones}
 	c := &PairCase{V: gen.Value(t, ty, o)}
 	if rapid.IntRange(0, 2).Draw(t, "dupparts") == 0 {
